@@ -628,7 +628,9 @@ This might be due to one or several causes:
     same version of IPFS-cluster.
 **************************************************
 `)
-		c.Shutdown(ctx)
+		// Shutdown waits for c.wg, which includes the goroutine
+		// running this function: it cannot be called from here.
+		go c.Shutdown(ctx)
 		return
 	case <-c.consensus.Ready(ctx):
 		// Consensus ready means the state is up to date. Every item
